@@ -13,13 +13,13 @@ CFG_AXES = {
         "sort_by": ["tschuprowt", "cramerv"],
         "max_n_mod": [3, 2, 4, 6],
         "min_freq": [0.1, 0.25],
-        "min_freq_mod": [None, 0.125, 0.25],
+        "min_freq_mod": [None, 0.125, 0.25, 0],
         "output_dtype": ["float", "str"],
     },
     "continuous": {
         "max_n_mod": [3, 2, 4, 6],
         "min_freq": [0.1, 0.25],
-        "min_freq_mod": [None, 0.125, 0.25],
+        "min_freq_mod": [None, 0.125, 0.25, 0],
         "output_dtype": ["float", "str"],
     },
 }
@@ -136,6 +136,16 @@ def cases_for_table(carver, kind, cells, tier, seed, d_cfg, dev_level, nan_cells
         c = dict(default)
         c["min_freq_mod"] = 0.25
         out.append(mk(nc, None, c, True))
+        c = dict(default)
+        c["min_freq_mod"] = 0
+        out.append(mk(nc, None, c, True))
+    # a single missing row with an explicit zero threshold: the tiny missing group may stand alone
+    if not lean:
+        tiny = (3,) if carver == "continuous" else ((0, 1) if carver == "binary" else (0, 0, 1))
+        c = dict(default)
+        c["min_freq_mod"] = 0
+        c["max_n_mod"] = 4
+        out.append(mk(tiny, None, c, True))
     for name, dcells in dev_variants(carver, list(cells), alpha, dev_level):
         if not any(sum(c) if binary_like(carver) else len(c) for c in dcells):
             continue
